@@ -99,10 +99,10 @@ func runC09(c run.Ctx) *core.CaseResult {
 			ops = append(ops, seq.GenOps(r, p)...)
 			switch r.IntN(4) {
 			case 0:
-				ops = append(ops, seq.Op{Kind: "mismatch", A: 0})
+				ops = append(ops, seq.Op{Kind: "mismatch", A: 0 + 2*(leg%2)})
 			case 1:
 				if cfg.Primary == gen.MH {
-					ops = append(ops, seq.Op{Kind: "mismatch", A: 1})
+					ops = append(ops, seq.Op{Kind: "mismatch", A: 1 + 2*(leg%2)})
 				}
 			}
 			nb := small[r.IntN(len(small))]
